@@ -412,6 +412,14 @@ def parse_rust_type(s):
                 ws()
             pos[0] += 1
             return ["unit"] if not items else ["tuple"] + items
+        if s.startswith("&", pos[0]):
+            pos[0] += 1
+            ws()
+            if s.startswith("'", pos[0]):
+                pos[0] += 1
+                while pos[0] < len(s) and (s[pos[0]].isalnum() or s[pos[0]] == "_"):
+                    pos[0] += 1
+            return ["ref", ty()]
         j = pos[0]
         while pos[0] < len(s) and (s[pos[0]].isalnum() or s[pos[0]] in "_:"):
             pos[0] += 1
@@ -436,6 +444,8 @@ def parse_rust_type(s):
             return ["vec", args[0]]
         if last == "Option" and len(args) == 1:
             return ["opt", args[0]]
+        if last == "Box" and len(args) == 1:
+            return ["box", args[0]]
         if last == "ErrorRecovery":
             return ["recovery"]
         if last in ("V", "usize") and not args:
